@@ -49,6 +49,10 @@ type Profile struct {
 	Hasher     *HasherCfg         `json:"hasher,omitempty"`
 	EndGenesis bool               `json:"end_genesis"`
 	AltSched   bool               `json:"alt_sched"`
+	// AvoidKnown: do not generate the boundary inputs behind the open known
+	// findings (start == end batches, public resolvers) so that the run can
+	// explore past them; the other runs still generate them.
+	AvoidKnown bool `json:"avoid_known"`
 }
 
 type Actor struct {
